@@ -147,7 +147,7 @@ def run(prop, args):
     # dense DP grid: defects of a DP / of the sequence builder are sparse in (n, units, costs)
     ND = 30 if tier == "quick" else 64
     grid = [(n, s, d, c8, "dp") for n in range(NS + 1, ND + 1) for s in (1, 2, 3) for d in (0, 1, 2, 3)
-            for c8 in ([8, 8, 16, 16], [8, 16, 24, 4], [16, 8, 4, 40], [8, 24, 8, 0], [24, 8, 0, 8])]
+            for c8 in ([8, 8, 16, 16], [8, 16, 24, 4], [16, 8, 4, 40], [8, 24, 8, 0], [24, 8, 0, 8], [8, 8, 32, 32])]
     jobs += grid
     seen = set((g[0], g[1], g[2], tuple(g[3])) for g in jobs)
     jobs += [g for g in _gen((tier, args.seed, 900 if tier == "quick" else 6000)) if (g[0], g[1], g[2], tuple(g[3])) not in seen]
@@ -157,7 +157,7 @@ def run(prop, args):
         R.harness_error("hierarchical oracles disagree (search vs dp): %s" % mism[:3])
     rep.exhaustive = [{"box": "n<=%d, RAM units<=%d, DISK units<=%d, %d cost vectors, compared with exhaustive search over all executable schedules" % (NS, SR, SD, len(SEARCH_C8)),
                        "cases": nsearch, "exhaustive": True},
-                      {"box": "n in %d..%d, RAM units 1..3, DISK units 0..3, 5 cost vectors, compared with the DP" % (NS + 1, ND), "cases": len(grid), "exhaustive": True}]
+                      {"box": "n in %d..%d, RAM units 1..3, DISK units 0..3, 6 cost vectors, compared with the DP" % (NS + 1, ND), "cases": len(grid), "exhaustive": True}]
     rep.extra["oracle_selfcheck"] = {"search_vs_dp_groups": nsearch}
     for out in res:
         n, s, d, c8, mode = out["job"]
